@@ -308,7 +308,7 @@ def gen_cases(tier, seed, search=False):
                               allow_include=crng.random() < 0.92, mem=mem, rich=True,
                               sheet_pattern=crng.choice([None, None, "(in|set)_"]))
         case["gen"] = {"graph": sorted(es), "n": n}
-        yield idx, shift_columns(crng, case)
+        yield idx, environment(crng, shift_columns(crng, case))
         idx += 1
     for k in range(400 if (thorough or search) else 40):
         crng = make_rng(seed, f"C18:a:{k}")
@@ -328,8 +328,16 @@ def gen_cases(tier, seed, search=False):
         case = c16.random_case(crng, xlsx_share=0.4)
         if crng.random() < 0.6:
             case["tracker"] = "collecting"
-        yield idx, shift_columns(crng, case)
+        yield idx, environment(crng, shift_columns(crng, case))
         idx += 1
+
+
+def environment(crng, case):
+    """what happens between the load and the inspection of origins, and whether the stream route is taken too"""
+    r = crng.random()
+    case["after_load"] = "touch" if r < 0.25 else "delete" if r < 0.4 else None
+    case["streams"] = sum(1 for f in case["files"] if f["kind"] in ("csv", "xlsx")) >= 2 and crng.random() < 0.35
+    return case
 
 
 def shift_columns(crng, case):
@@ -415,6 +423,84 @@ def oracle_iterables(case, m, tables, roots, out):
             return
 
 
+def env_step(m, env):
+    """the environment after the load, before anything is inspected: every file modified later, or all gone"""
+    import os
+    if env == "touch":
+        for p in m.ident_at_load:
+            st = os.stat(p)
+            os.utime(p, (st.st_atime + 4000, st.st_mtime + 4000))
+    elif env == "delete":
+        shutil.rmtree(m.root, ignore_errors=True)
+
+
+def capture_streams(case, m):
+    """the CSV / workbook files of the case as nameless in-memory streams"""
+    import io
+    res = []
+    for f, fid in zip(case["files"], m.file_id):
+        if f["kind"] == "csv":
+            with open(m.path_of[fid], newline="") as fh:
+                res.append(("csv", io.StringIO(fh.read())))
+        elif f["kind"] == "xlsx":
+            with open(m.path_of[fid], "rb") as fh:
+                res.append(("xlsx", io.BytesIO(fh.read())))
+    return res
+
+
+def oracle_streams(case, streams, out):
+    """the same inputs read as nameless streams (read_csv(StringIO), read_excel(BytesIO)), their tables combined
+    into one forest: one tree per input, every table beneath its own input"""
+    from pdtable import read_csv, read_excel, BlockType
+    from pdtable.io.load import make_location_trees
+    import warnings
+    per_input = []
+    with warnings.catch_warnings():
+        warnings.simplefilter("ignore")
+        for kind, stream in streams:
+            tracker = c16.make_collector()
+            try:
+                blocks = list(read_csv(stream, issue_tracker=tracker) if kind == "csv"
+                              else read_excel(stream, issue_tracker=tracker))
+            except Exception as e:  # noqa
+                out.fail("reading an input as a stream raised", dict(case, route="streams"), repr(e), None,
+                         key="streams:raised:" + type(e).__name__)
+                return
+            per_input.append([b for bt, b in blocks if bt == BlockType.TABLE])
+    tables = [t for ts in per_input for t in ts]
+    try:
+        roots = make_location_trees(tables)
+    except Exception as e:  # noqa
+        out.fail("make_location_trees raised on tables read from streams", dict(case, route="streams"), repr(e),
+                 None, key="streams:raised:" + type(e).__name__)
+        return
+    parent_of = {}
+    def walk(n):
+        for c in n.children:
+            if c.table is not None:
+                parent_of[id(c.table)] = n
+            else:
+                walk(c)
+    for rt in roots:
+        walk(rt)
+    groups = []
+    for k, ts in enumerate(per_input):
+        nodes = {id(parent_of.get(id(t))) for t in ts}
+        if ts and (len(nodes) != 1 or None in [parent_of.get(id(t)) for t in ts]):
+            out.fail("the tables of one stream input do not hang beneath one node of their own",
+                     dict(case, route="streams"), {"input": k, "tables": [t.name for t in ts]}, None,
+                     key="streams:split")
+            return
+        if ts:
+            groups.append(nodes.pop())
+    if len(groups) != len(set(groups)) or len(roots) != len(groups):
+        out.fail("tables read from different nameless streams share a tree node: one tree per input expected",
+                 dict(case, route="streams"),
+                 {"inputs_with_tables": len(groups), "distinct_nodes": len(set(groups)), "roots": len(roots),
+                  "identifiers": sorted({t.metadata.origin.input_location.file.load_identifier for t in tables})},
+                 None, key="streams:merged")
+
+
 def one_case(case, root, out, want_model, order, m=None):
     """runs the implementation and the oracles; returns the model ops + what to compare them with"""
     from pdtable.io.load import make_location_trees
@@ -422,8 +508,24 @@ def one_case(case, root, out, want_model, order, m=None):
     if m is None:
         m = c16.materialise(case, root)
     nodes = c16.observe_world(case, m)
-    r = c16.run_impl(case, m)
+    table = c16.resolve_table(case, m, c16.make_mem({}, [])[1]) if want_model else None
+    streams = capture_streams(case, m) if case.get("streams") else None
+    env = case.get("after_load")
+    r = c16.run_impl(case, m, after_load=(lambda: env_step(m, env)) if env else None)
     impl = r.canon
+    if r.canon_error is not None:
+        out.fail("inspecting the origins of a finished load raised" +
+                 (f" after the files were {env}d" if env else ""), case, r.canon_error, None,
+                 key="origin:inspection_raised")
+        return None
+    for o in impl["out"]:
+        want_ident = m.ident_at_load.get(m.path_of.get(o["loc"])) if o.get("ident") else None
+        if want_ident is not None and o["ident"] != want_ident:
+            out.fail("a block's file identifier is not the one the file had when it was loaded", case,
+                     o["ident"], want_ident, key="origin:identifier_not_frozen")
+            return None
+    if streams is not None:
+        oracle_streams(case, streams, out)
     if impl["status"] == "runaway":
         out.fail("load_files did not terminate (watchdog)", case, "runaway", None, key="nontermination")
         return None
@@ -454,7 +556,6 @@ def one_case(case, root, out, want_model, order, m=None):
     table_outs = [o for o in impl["out"] if o["ty"] == "TABLE"]
     res = {"m": m, "impl": impl, "ntables": len(tables), "tables": tables, "table_outs": table_outs}
     if want_model:
-        table = c16.resolve_table(case, m, r.MemLocationFile)
         res["load_op"] = c16.model_op(case, m, nodes, table, order)
         res["tree_op"] = {"op": "location_trees",
                           "tables": [{"loc": o["loc"], "sheet": o["sheet"], "row": o["row"], "history": o["history"]}
@@ -496,6 +597,9 @@ def run(tier, seed, model_ok, translator, search=False):
             if res["ntables"]:
                 out.nontrivial.add(hash(repr(case["files"]) + repr(case["roots"])))
             out.count("tables_yielded", res["ntables"])
+            out.count("after_load:" + str(case.get("after_load")))
+            if case.get("streams"):
+                out.count("cases_also_read_as_nameless_streams")
             out.count("cases:" + ("graph" if "graph" in case["gen"] else "aligned" if "aligned" in case["gen"]
                                   else "random"))
             al = case.get("aligned_includes", [])
